@@ -36,7 +36,7 @@ MANIFEST = dict(
 )
 
 IMPORTS = ['Coq.ZArith.ZArith', 'Coq.NArith.NArith', 'Coq.Lists.List', 'Coq.Strings.String', 'SV.Num.Mod360', 'SV.Num.AngleSites',
-           'SV.Num.Dec6', 'SV.Num.Dec6CarveProofs', 'SV.Num.VecText', 'SV.SM.FrozenOps', 'SV.Gen.AngleSites_gen']
+           'SV.Num.Dec6', 'SV.Num.Dec6CarveProofs', 'SV.Num.VecText', 'SV.SM.FrozenOps', 'SV.SM.FrozenCopy', 'SV.Gen.AngleSites_gen']
 PRE = '''Import ListNotations.
 Fixpoint bad_idx {A} (f : A -> bool) (n : N) (l : list A) : list N := match l with [] => [] | x :: r => (if f x then [] else [n]) ++ bad_idx f (n + 1)%N r end.
 Definition t3_eqb (a b : Z * Z * Z) : bool := let '(a1, a2, a3) := a in let '(b1, b2, b3) := b in (Z.eqb a1 b1 && Z.eqb a2 b2 && Z.eqb a3 b3)%bool.
@@ -684,7 +684,13 @@ def run_history(hist: list[tuple]):
                 continue
             if not any(o is r for r in regs) and finite_obj(o):      # non-finite results are outside the property
                 regs.append(o)
-        frames.append({'op': op[0], 'meth': meth, 'recv': recv, 'args': args, 'changed': changed, 'classes': [type(o).__name__ for o in regs[:nregs]]})
+        res_is = None
+        if out and not isinstance(out[0], tuple):
+            src_i = recv if recv is not None else (args[0] if args else None)
+            if src_i is not None and src_i < nregs:
+                res_is = 'same' if out[0] is regs[src_i] else 'new'
+        frames.append({'op': op[0], 'meth': meth, 'recv': recv, 'args': args, 'changed': changed, 'classes': [type(o).__name__ for o in regs[:nregs]],
+                       'res_is': res_is, 'res_cls': type(out[0]).__name__ if out else None})
         # (b) frozen values never change; nothing but a mutable receiver is written
         for i in changed:
             cls = before[i][0]
@@ -825,6 +831,37 @@ def corr_frames(ck: Ck, frames: list[dict]) -> None:
         ck.extra['frame_disagreement'] = [frames[i] for i in bad[:5]]
 
 
+def corr_results(ck: Ck, frames: list[dict], side: dict) -> None:
+    """Is the result of a copy-like call / constructor call the source object itself or a new one?  Compared with the
+    generated table result_kinds (SM/FrozenCopy.v kinds): RFresh = always new, RSelf = always the receiver,
+    RArgFrozen = the argument itself exactly when it already is of that frozen class."""
+    kinds = {(c, m): k for c, m, k in side.get('result_kinds', [])}
+    bad = []
+    n = 0
+    for f in frames:
+        if f['op'] not in COPY_OPS or f['res_is'] is None:
+            continue
+        if f['recv'] is not None:
+            cls = f['classes'][f['recv']]
+            k = kinds.get((cls, f['meth']))
+            want = {'RFresh': 'new', 'RSelf': 'same'}.get(k)
+        else:
+            cls = f['res_cls']
+            k = kinds.get((cls, '__new__')) or kinds.get((cls, '__init__'))
+            src_cls = f['classes'][f['args'][0]]
+            want = {'RFresh': 'new', 'RArgFrozen': 'same' if src_cls == cls else 'new'}.get(k)
+        n += 1
+        ck.count('result_cases')
+        ck.hist('result_kind_checked', f'{cls}.{f["meth"]}:{k}')
+        if want != f['res_is']:
+            bad.append({'class': cls, 'method': f['meth'], 'model_kind': k, 'implementation': f['res_is']})
+    ck.obligation('correspondence:results', n > 0 and not bad,
+                  f'{n} copy-like / constructor calls: result is the source object or a new one vs Gen result_kinds: {len(bad)} disagreements')
+    if bad or not n:
+        ck.tie_broken.append('correspondence results (result_kinds vs real objects)')
+        ck.extra['result_disagreement'] = bad[:5]
+
+
 # ------------------------------------------------------------------------------------------------ direct oracles
 def search_to_angle(ck: Ck) -> None:
     """Targeted oracle for the conversion matrix -> angle: rotations by tiny negative angles about each axis,
@@ -946,20 +983,24 @@ def run(ck: Ck) -> None:
             'format_float_pipeline_ok_up_to_negative_zero': 'cfg_base_ok format_float_cfg',
             'str_and_join_use_format_float': 'str_uses_format_float',
             'mutation_census_ok': 'table_ok mut_events no_carve',
+            'copy_results_new_or_frozen_self': 'copy_results_ok result_kinds',
+            'copy_protocol_present_on_all_six_classes': 'copy_methods_present result_kinds',
+            'copy_methods_write_nothing': 'no_copy_events mut_events',
             'no_write_through_unknown_or_aliased_object': 'forallb (fun e : mut_event => match snd (fst e) with Unknown | MaybeAlias | Param => helper (snd (fst (fst e))) | _ => true end) mut_events',
         })
         if not all(res.values()):      # a premise of the theorems no longer holds for today's source: escalate the search
             ck.tie_broken.append('instance obligations failed: ' + ', '.join(k for k, ok in res.items() if not ok))
-        v = ck.coq_eval(IMPORTS, ['table_ok mut_events no_carve', 'bad_events no_carve mut_events'], name='nocarve', preamble='Import ListNotations.')
-        ck.extra['mutation_census_ok_without_carve_out'] = v
-        v = ck.coq_eval(IMPORTS, ['neg_zero_fix format_float_cfg'], name='negzero')
-        ck.extra['format_float_has_negative_zero_repair (carve-out of c05_format6_shape empty when true)'] = v
+        v = ck.coq_eval(IMPORTS, ['bad_events no_carve mut_events', 'bad_results result_kinds', 'bad_creations angle_creations', 'neg_zero_fix format_float_cfg'], name='info', preamble='Import ListNotations.')
+        if v:
+            ck.extra['offending_census_entries'] = {'mut_events': v[0], 'result_kinds': v[1], 'angle_creations': v[2]}
+            ck.extra['format_float_has_negative_zero_repair (carve-out of c05_format6_shape empty when true)'] = v[3]
         corr_mod(ck)
         corr_format(ck)
         corr_parse(ck)
     frames = search_histories(ck)
     if built:
         corr_frames(ck, frames)
+        corr_results(ck, frames, side)
     search_to_angle(ck)
     search_text(ck)
     explain_failures(ck)
@@ -995,7 +1036,7 @@ def explain_failures(ck: Ck) -> None:
         ck.explain('instance:no_write_through_unknown_or_aliased_object')
         ck.explain('correspondence:frames')
     if any(k.startswith(('copy-is-same-object', 'copy-not-equal')) for k in keys):
-        ck.explain('instance:copy_results_')
+        ck.explain('instance:copy_')
         ck.explain('correspondence:results')
 
 
